@@ -10,6 +10,8 @@ package main
 
 import (
 	"encoding/json"
+	"io"
+	"os/exec"
 	"fmt"
 	"os"
 	"path/filepath"
@@ -290,6 +292,11 @@ func main() {
 		fmt.Println(strings.Join(ids, " "))
 		return
 	case "check":
+		// supervise: the check itself runs in a child process, so that a panic in one of zap's own goroutines
+		// (which no recover in the harness can catch) is observed instead of killing the verdict
+		if os.Getenv("VERIF_SUPERVISED") == "" && len(os.Args) > 2 {
+			os.Exit(supervise())
+		}
 	default:
 		fmt.Fprintln(os.Stderr, "unknown command", os.Args[1])
 		os.Exit(2)
@@ -349,4 +356,96 @@ type abortRun struct{}
 func (c *Ctx) Fatalf(format string, a ...interface{}) {
 	c.Inconclusive(format, a...)
 	panic(abortRun{})
+}
+
+// supervise runs the check in a child process. If the child is killed by a Go panic whose goroutine is one of
+// zap's own (no harness frame above the zap frames), the same check is run once more; a second such crash is
+// reported as a violation (panic in zap), anything else stays inconclusive.
+func supervise() int {
+	id := os.Args[2]
+	run := func() (int, string) {
+		exe, _ := os.Executable()
+		cmd := exec.Command(exe, os.Args[1:]...)
+		cmd.Env = append(os.Environ(), "VERIF_SUPERVISED=1")
+		cmd.Stdin = os.Stdin
+		cmd.Stdout = os.Stdout
+		var tail ringBuf
+		cmd.Stderr = io.MultiWriter(os.Stderr, &tail)
+		err := cmd.Run()
+		code := 0
+		if ee, ok := err.(*exec.ExitError); ok {
+			code = ee.ExitCode()
+		} else if err != nil {
+			code = 2
+		}
+		return code, tail.String()
+	}
+	code, errOut := run()
+	if code == 0 || code == 1 {
+		return code
+	}
+	crash := zapGoroutinePanic(errOut)
+	if crash == "" {
+		return code
+	}
+	fmt.Println("NOTE: the check process died in a panic of one of zap's own goroutines; running it once more")
+	code2, errOut2 := run()
+	if code2 == 0 || code2 == 1 {
+		return code2
+	}
+	if crash2 := zapGoroutinePanic(errOut2); crash2 != "" {
+		dir := filepath.Join(Root, "out", "violations", id)
+		os.MkdirAll(dir, 0o755)
+		p := filepath.Join(dir, "crash.json")
+		b, _ := json.MarshalIndent(map[string]interface{}{"property": id, "key": id + "/crash-in-zap-goroutine", "what": crash2}, "", " ")
+		os.WriteFile(p, b, 0o644)
+		fmt.Printf("VIOLATION property=%s replay=%s\n  key=%s/crash-in-zap-goroutine\n  the process running the check was killed twice by a panic in a goroutine started by zap itself:\n%s\n", id, p, id, crash2)
+		return 1
+	}
+	return code2
+}
+
+type ringBuf struct {
+	mu sync.Mutex
+	b  []byte
+}
+
+func (r *ringBuf) Write(p []byte) (int, error) {
+	r.mu.Lock()
+	r.b = append(r.b, p...)
+	if len(r.b) > 1<<18 {
+		r.b = r.b[len(r.b)-(1<<18):]
+	}
+	r.mu.Unlock()
+	return len(p), nil
+}
+func (r *ringBuf) String() string { r.mu.Lock(); defer r.mu.Unlock(); return string(r.b) }
+
+// zapGoroutinePanic extracts "panic: ..." + the panicking goroutine's stack when that stack consists of zap
+// (and runtime) frames only; "" otherwise.
+func zapGoroutinePanic(out string) string {
+	i := strings.LastIndex(out, "\npanic: ")
+	if i < 0 {
+		if strings.HasPrefix(out, "panic: ") {
+			i = 0
+		} else {
+			return ""
+		}
+	}
+	rest := out[i:]
+	j := strings.Index(rest, "\ngoroutine ")
+	if j < 0 {
+		return ""
+	}
+	stack := rest[j+1:]
+	if k := strings.Index(stack, "\n\n"); k >= 0 {
+		stack = stack[:k]
+	}
+	if !strings.Contains(stack, "go.uber.org/zap") || strings.Contains(stack, "main.") {
+		return ""
+	}
+	if len(rest) > j+1+len(stack) {
+		rest = rest[:j+1+len(stack)]
+	}
+	return strings.TrimSpace(rest)
 }
